@@ -36,6 +36,7 @@ type Ctx struct {
 	replay  string
 	// units: number of individual requests / steps evaluated when one case line carries a whole history
 	units int
+	notes *bufio.Writer
 }
 
 func newCtx(prop, tier string, seed int64, outDir, keysDir string) *Ctx {
@@ -58,12 +59,26 @@ func (c *Ctx) close() {
 	c.cases.Flush()
 	c.impl.Flush()
 	c.oracle.Flush()
+	if c.notes != nil {
+		c.notes.Flush()
+	}
 	for _, f := range c.files {
 		f.Close()
 	}
 	meta := map[string]interface{}{"prop": c.prop, "tier": c.tier, "seed": c.seed, "cases": c.n, "hist": c.hist, "samples": c.samples, "units": c.units}
 	b, _ := json.MarshalIndent(meta, "", " ")
 	must(os.WriteFile(filepath.Join(c.outDir, "meta.json"), b, 0o644))
+}
+
+// note records free-text context for a case (notes.txt), for people reading a replay
+func (c *Ctx) note(id, text string) {
+	if c.notes == nil {
+		f, err := os.Create(filepath.Join(c.outDir, "notes.txt"))
+		must(err)
+		c.files = append(c.files, f)
+		c.notes = bufio.NewWriter(f)
+	}
+	fmt.Fprintln(c.notes, id+" "+text)
 }
 
 func (c *Ctx) quick() bool { return c.tier != "thorough" }
